@@ -15,7 +15,12 @@ def user_fns():
         return bytes(Component.get_value(c))[:1] == b'a'
 
     def isin(c, args):
-        return any(a is not None and bytes(a) == bytes(c) for a in args)
+        # (uses its argument list up: the list is the function's own, a fresh one for every call)
+        while args:
+            a = args.pop()
+            if a is not None and bytes(a) == bytes(c):
+                return True
+        return False
     def first_is(c, args):
         # order-sensitive: the FIRST argument (as written in the schema) equals the component
         return bool(args) and args[0] is not None and bytes(args[0]) == bytes(c)
